@@ -6,11 +6,11 @@
 package main
 
 import (
-	"io"
-	"log/slog"
 	"crypto/sha256"
 	"encoding/json"
 	"fmt"
+	"io"
+	"log/slog"
 	"os"
 	"os/exec"
 	"path/filepath"
